@@ -39,9 +39,10 @@ VARIABLES pid,     \* which program: [id, p] (the program itself is carried in t
           log,     \* evaluation / snapshot / handler events
           tok,     \* last token reference (site) of the running function
           exc,     \* exception being unwound, or NoExc
-          res      \* result: "run" | "ok" | "fail"
+          res,     \* result: "run" | "ok" | "fail"
+          mx       \* METAL / I18N state: [heap, senv, acts, i18n]
 
-vars == <<pid, ctl, envs, glob, rep, cells, out, log, tok, exc, res>>
+vars == <<pid, ctl, envs, glob, rep, cells, out, log, tok, exc, res, mx>>
 
 prog  == pid.p
 items == prog.items
@@ -58,6 +59,7 @@ Exc(c)   == [t |-> "exc", c |-> c]
 NoExc    == [t |-> "noexc"]
 NoRep    == [t |-> "norep"]
 NoSite   == [i |-> 0, s |-> "none", j |-> 0]
+NoFill   == [i |-> 0, fn |-> 0]
 
 IsExc(v) == v.t = "exc"
 
@@ -249,10 +251,14 @@ Prepared(it) ==
 
 -----------------------------------------------------------------------------
 (* Stage order *)
-StageSeq == << "oe", "def", "case", "cond", "rep", "sw", "repl", "omit", "stag" >>
+StageSeq == << "oe", "imacro", "ds", "def", "case", "cond", "rep", "sw", "dom", "use", "repl", "omit", "stag" >>
 
 HasStage(it, st) ==
   CASE st = "oe"   -> it.oe.m # "no"
+    [] st = "imacro" -> it.dm # ""          \* metal:define-macro: the element is rendered by calling its macro
+    [] st = "ds"   -> it.ds # ""            \* metal:define-slot
+    [] st = "use"  -> it.um.m # "no"        \* metal:use-macro / extend-macro
+    [] st = "dom"  -> it.i18n.m # "no"      \* i18n:domain / context / target
     [] st = "def"  -> Len(it.def) > 0
     [] st = "case" -> it.cs.x # "none"
     [] st = "cond" -> it.cond.x # "none"
@@ -268,9 +274,10 @@ IdxOf(st) == CHOOSE n \in 1..Len(StageSeq) : StageSeq[n] = st
 NextStage(it, st) == FirstFrom(it, IdxOf(st) + 1)
 FirstStage(it) == FirstFrom(it, 1)
 
-Frame(i, st) == [i |-> i, st |-> st, j |-> 1, c |-> i + 1, it |-> 0, its |-> <<>>, oe |-> FALSE,
-                 l0 |-> LookupAll, g0 |-> glob, n0 |-> Len(out), rec |-> FALSE]
 F  == ctl[Len(ctl)]
+Frame(i, st) == [i |-> i, st |-> st, j |-> 1, c |-> i + 1, it |-> 0, its |-> <<>>, oe |-> FALSE,
+                 l0 |-> LookupAll, g0 |-> glob, n0 |-> Len(out), rec |-> FALSE,
+                 kind |-> "elem", fn |-> F.fn, ke |-> 0]
 It == items[F.i]
 SetF(f) == [ctl EXCEPT ![Len(ctl)] = f]
 Goto(st) == SetF([F EXCEPT !.st = st, !.j = 1])
@@ -285,7 +292,8 @@ Running == res = "run" /\ exc = NoExc /\ Len(ctl) > 0
 Init ==
   /\ pid \in { [id |-> n, p |-> Progs[n]] : n \in 1..Len(Progs) }
   /\ ctl = << [i |-> 0, st |-> "kids", j |-> 1, c |-> 1, it |-> 0, its |-> <<>>, oe |-> FALSE,
-                l0 |-> pid.p.init, g0 |-> [n \in Names |-> Undef], n0 |-> 0, rec |-> FALSE] >>
+                l0 |-> pid.p.init, g0 |-> [n \in Names |-> Undef], n0 |-> 0, rec |-> FALSE,
+                kind |-> "root", fn |-> 1, ke |-> pid.p.main + 1] >>
   /\ envs = << pid.p.init >>
   /\ glob = [n \in Names |-> Undef]
   /\ rep = [n \in Names |-> NoRep]
@@ -295,22 +303,25 @@ Init ==
   /\ tok = NoSite
   /\ exc = NoExc
   /\ res = "run"
+  /\ mx = [heap |-> <<>>, senv |-> << [s \in pid.p.slots |-> 0] >>,
+           acts |-> << [sv |-> [s \in pid.p.slots |-> NoFill], tok |-> NoSite] >>,
+           i18n |-> [d |-> "", c |-> "", t |-> ""], tstk |-> <<>>]
 
 SetCell(c, v) == [x \in DOMAIN cells \cup {c} |-> IF x = c THEN v ELSE cells[x]]
 
 EvLog(site, a) == [n \in 1..Len(a.ev) |-> [ev |-> "call", k |-> a.ev[n].k, r |-> a.ev[n].r, site |-> site, act |-> Act]]
 
 \* Raise exception class c at site (the running function's token is the site)
-RaiseAt(site, c) == exc' = [c |-> c, site |-> site]
+RaiseAt(site, c) == exc' = [c |-> c, site |-> site, sites |-> <<>>]
 
 -----------------------------------------------------------------------------
 (* kids: walk the children of the current element (or the top level) *)
-KidsEnd == IF F.i = 0 THEN Len(items) + 1 ELSE Match(F.i)
+KidsEnd == IF F.i = 0 THEN F.ke ELSE Match(F.i)
 
 KEnter ==   \* MacroProgram.visit_element -> wrap(...)
   /\ Running /\ F.st = "kids" /\ F.c < KidsEnd /\ items[F.c].k = "open"
   /\ ctl' = Append(ctl, Frame(F.c, FirstStage(items[F.c])))
-  /\ UNCHANGED <<pid, envs, glob, rep, cells, out, log, tok, exc, res>>
+  /\ UNCHANGED <<pid, mx, envs, glob, rep, cells, out, log, tok, exc, res>>
 
 KText ==    \* visit_Text / visit_Interpolation, one part per step
   /\ Running /\ F.st = "kids" /\ F.c < KidsEnd /\ items[F.c].k = "text"
@@ -338,14 +349,15 @@ KText ==    \* visit_Text / visit_Interpolation, one part per step
                                    ELSE Append(out, [a |-> "val", v |-> a.r, esc |-> "text", i |-> F.c, p |-> F.j])
                          /\ UNCHANGED exc
                  /\ UNCHANGED <<envs, glob, rep, cells, res>>
-  /\ UNCHANGED pid
+  /\ UNCHANGED <<pid, mx>>
 
 KDone ==    \* children exhausted
   /\ Running /\ F.st = "kids" /\ F.c = KidsEnd
+  /\ (F.i = 0 => Len(ctl) = 1)        \* a whole template used as macro returns through MReturn
   /\ IF F.i = 0
      THEN /\ res' = "ok" /\ ctl' = <<>>
      ELSE /\ ctl' = Goto("etag") /\ UNCHANGED res
-  /\ UNCHANGED <<pid, envs, glob, rep, cells, out, log, tok, exc>>
+  /\ UNCHANGED <<pid, mx, envs, glob, rep, cells, out, log, tok, exc>>
 
 -----------------------------------------------------------------------------
 (* Statement stages *)
@@ -354,7 +366,7 @@ SOe ==      \* visit_OnError: remember the stream length
   /\ Running /\ F.st = "oe"
   /\ cells' = SetCell(CFb(F.i), VInt(Len(out)))
   /\ ctl' = SetF([F EXCEPT !.st = NextStage(It, "oe"), !.j = 1, !.oe = TRUE])
-  /\ UNCHANGED <<pid, envs, glob, rep, out, log, tok, exc, res>>
+  /\ UNCHANGED <<pid, mx, envs, glob, rep, out, log, tok, exc, res>>
 
 \* generic evaluation step for stage st with expression e; K(a) is the
 \* continuation for a successful result a.r
@@ -378,7 +390,7 @@ SDef ==     \* visit_Define / _enter_assignment / visit_Assignment
                  /\ ctl' = nxt
                  /\ UNCHANGED <<rep, out>>
      IN EvalAt(Site(F.i, "def", F.j), d.e, K)
-  /\ UNCHANGED <<pid, res>>
+  /\ UNCHANGED <<pid, mx, res>>
 
 SCase ==    \* CASE closure + visit_Cancel
   /\ Running /\ F.st = "case"
@@ -414,14 +426,14 @@ SCase ==    \* CASE closure + visit_Cancel
                           THEN /\ ctl' = take /\ cells' = SetCell(sw, VCancel) /\ UNCHANGED exc
                           ELSE /\ ctl' = skip /\ UNCHANGED <<cells, exc>>
                /\ UNCHANGED <<envs, glob, rep, out>>
-  /\ UNCHANGED <<pid, res>>
+  /\ UNCHANGED <<pid, mx, res>>
 
 SCond ==    \* visit_Condition
   /\ Running /\ F.st = "cond"
   /\ LET K(v) == /\ ctl' = IF Truthy(v) THEN Goto(NextStage(It, "cond")) ELSE GotoUndef
                  /\ UNCHANGED <<envs, glob, rep, cells, out>>
      IN EvalAt(Site(F.i, "cond", 0), It.cond, K)
-  /\ UNCHANGED <<pid, res>>
+  /\ UNCHANGED <<pid, mx, res>>
 
 \* what tal:repeat iterates over (RepeatDict.__call__: list(iterable), None -> ())
 \* strings are iterables of their characters; string values are tags, their
@@ -468,7 +480,7 @@ SRep ==     \* visit_Repeat, up to the loop head
                   /\ envs' = SetAll(envs, r.ns, [m \in 1..Len(r.ns) |-> VNone], 1)
                   /\ ctl' = SetF([F EXCEPT !.st = "iter", !.its = ItemsOf(a.r), !.it = 0])
                   /\ UNCHANGED exc
-  /\ UNCHANGED <<pid, glob, out, res>>
+  /\ UNCHANGED <<pid, mx, glob, out, res>>
 
 SIter ==    \* for __item in __iterator: assign; after the loop _leave_assignment
   /\ Running /\ F.st = "iter"
@@ -493,7 +505,7 @@ SIter ==    \* for __item in __iterator: assign; after the loop _leave_assignmen
                     THEN [rep EXCEPT ![r.ns[1]] = cells[CRepPrev(F.i)]] ELSE rep
           /\ ctl' = SetF([F EXCEPT !.st = "undef", !.j = Len(It.def), !.it = 0])
           /\ UNCHANGED <<glob, exc>>
-  /\ UNCHANGED <<pid, cells, out, log, tok, res>>
+  /\ UNCHANGED <<pid, mx, cells, out, log, tok, res>>
 
 SSw ==      \* visit_Cache for the switch expression
   /\ Running /\ F.st = "sw"
@@ -501,7 +513,7 @@ SSw ==      \* visit_Cache for the switch expression
                  /\ ctl' = Goto(NextStage(It, "sw"))
                  /\ UNCHANGED <<envs, glob, rep, out>>
      IN EvalAt(Site(F.i, "sw", 0), It.sw, K)
-  /\ UNCHANGED <<pid, res>>
+  /\ UNCHANGED <<pid, mx, res>>
 
 ValAtom(v, esc, i) == [a |-> "val", v |-> v, esc |-> esc, i |-> i, p |-> 0]
 
@@ -512,7 +524,7 @@ SRepl ==    \* tal:replace via _make_content_node (default -> the element)
                            ELSE Append(out, ValAtom(v, IF It.sub.s THEN "struct" ELSE "text", F.i))
                  /\ UNCHANGED <<envs, glob, rep, cells>>
      IN EvalAt(Site(F.i, "sub", 0), It.sub.e, K)
-  /\ UNCHANGED <<pid, res>>
+  /\ UNCHANGED <<pid, mx, res>>
 
 SOmit ==    \* Cache([omit]) -- the negated omit-tag expression
   /\ Running /\ F.st = "omit"
@@ -520,7 +532,7 @@ SOmit ==    \* Cache([omit]) -- the negated omit-tag expression
                  /\ ctl' = Goto("stag")
                  /\ UNCHANGED <<envs, glob, rep, out>>
      IN EvalAt(Site(F.i, "omit", 0), It.omit.e, K)
-  /\ UNCHANGED <<pid, res>>
+  /\ UNCHANGED <<pid, mx, res>>
 
 \* --- attribute dictionaries ------------------------------------------------
 CDict(i, j) == <<"dict", i, j>>
@@ -560,7 +572,7 @@ SStag ==    \* visit_Start; Cache(filtering): attribute dictionaries are evaluat
           /\ ctl' = IF DictIdx(It) # {} THEN Goto("dicts")
                     ELSE IF Len(Prepared(It)) > 0 THEN Goto("attr") ELSE Goto("stagend")
      ELSE /\ ctl' = Goto("cont") /\ UNCHANGED out
-  /\ UNCHANGED <<pid, envs, glob, rep, cells, log, tok, exc, res>>
+  /\ UNCHANGED <<pid, mx, envs, glob, rep, cells, log, tok, exc, res>>
 
 SDicts ==   \* evaluate the attribute dictionaries (in statement order) into their cells
   /\ Running /\ F.st = "dicts"
@@ -580,7 +592,7 @@ SDicts ==   \* evaluate the attribute dictionaries (in statement order) into the
              THEN /\ RaiseAt(Site(F.i, "attr", j), a.r.c)
                   /\ UNCHANGED <<ctl, envs, glob, rep, cells, out>>
              ELSE K(a.r)
-  /\ UNCHANGED <<pid, res>>
+  /\ UNCHANGED <<pid, mx, res>>
 
 \* atoms emitted by an attribute dictionary
 RECURSIVE DictAtoms(_, _, _, _, _)
@@ -622,13 +634,13 @@ SAttr ==    \* visit_Attribute / visit_DictAttributes
                              ELSE Append(out, [a |-> "dattr", i |-> F.i, n |-> a.dy, st |-> a.st, v |-> v])
                    /\ UNCHANGED <<envs, glob, rep, cells>>
              IN EvalAt(Site(F.i, "attr", a.dy), d.e, K)
-  /\ UNCHANGED <<pid, res>>
+  /\ UNCHANGED <<pid, mx, res>>
 
 SStagEnd ==
   /\ Running /\ F.st = "stagend"
   /\ out' = Append(out, [a |-> "stagend", i |-> F.i])
   /\ ctl' = Goto("cont")
-  /\ UNCHANGED <<pid, envs, glob, rep, cells, log, tok, exc, res>>
+  /\ UNCHANGED <<pid, mx, envs, glob, rep, cells, log, tok, exc, res>>
 
 SCont ==    \* tal:content via _make_content_node (default -> the children)
   /\ Running /\ F.st = "cont"
@@ -640,13 +652,13 @@ SCont ==    \* tal:content via _make_content_node (default -> the children)
                                 ELSE Append(out, ValAtom(v, IF It.sub.s THEN "struct" ELSE "text", F.i))
                       /\ UNCHANGED <<envs, glob, rep, cells>>
           IN EvalAt(Site(F.i, "sub", 0), It.sub.e, K)
-  /\ UNCHANGED <<pid, res>>
+  /\ UNCHANGED <<pid, mx, res>>
 
 SEtag ==    \* visit_End
   /\ Running /\ F.st = "etag"
   /\ out' = IF TagShown THEN Append(out, [a |-> "etag", i |-> F.i]) ELSE out
   /\ ctl' = Goto("loop")
-  /\ UNCHANGED <<pid, envs, glob, rep, cells, log, tok, exc, res>>
+  /\ UNCHANGED <<pid, mx, envs, glob, rep, cells, log, tok, exc, res>>
 
 SLoop ==    \* end of the loop body: index -= 1; separator unless last
   /\ Running /\ F.st = "loop"
@@ -655,7 +667,7 @@ SLoop ==    \* end of the loop body: index -= 1; separator unless last
           /\ UNCHANGED out
      ELSE /\ ctl' = Goto("iter")
           /\ out' = IF F.it < Len(F.its) THEN Append(out, [a |-> "sep", i |-> F.i]) ELSE out
-  /\ UNCHANGED <<pid, envs, glob, rep, cells, log, tok, exc, res>>
+  /\ UNCHANGED <<pid, mx, envs, glob, rep, cells, log, tok, exc, res>>
 
 SUndef ==   \* _leave_assignment in reverse order
   /\ Running /\ F.st = "undef"
@@ -665,13 +677,13 @@ SUndef ==   \* _leave_assignment in reverse order
           /\ envs' = IF d.g THEN envs
                      ELSE SetLocal(envs, d.n, Restored(d.n, cells[CBk(F.i, F.j)]))
           /\ ctl' = SetF([F EXCEPT !.j = F.j - 1])
-  /\ UNCHANGED <<pid, glob, rep, cells, out, log, tok, exc, res>>
+  /\ UNCHANGED <<pid, mx, glob, rep, cells, out, log, tok, exc, res>>
 
 SDone ==    \* element finished: back to the parent's children walk
-  /\ Running /\ F.st = "done"
+  /\ Running /\ F.st = "done" /\ F.kind = "elem"
   /\ LET n == Len(ctl) IN
      ctl' = [SubSeq(ctl, 1, n - 1) EXCEPT ![n - 1].c = Match(F.i) + 1, ![n - 1].j = 1]
-  /\ UNCHANGED <<pid, envs, glob, rep, cells, out, log, tok, exc, res>>
+  /\ UNCHANGED <<pid, mx, envs, glob, rep, cells, out, log, tok, exc, res>>
 
 -----------------------------------------------------------------------------
 (* Exceptions: unwinding (no restores run -- the generated code has no     *)
@@ -699,13 +711,21 @@ Unwind ==
           /\ out' = SubSeq(out, 1, cells[CFb(F.i)].n)
           /\ ctl' = SetF([F EXCEPT !.st = "fb", !.j = 1, !.oe = FALSE, !.rec = TRUE])
           /\ exc' = NoExc
-          /\ UNCHANGED res
+          /\ UNCHANGED <<res, mx>>
      ELSE IF Len(ctl) = 1
      THEN /\ res' = "fail" /\ ctl' = <<>>
-          /\ UNCHANGED <<envs, log, out, exc>>
+          /\ UNCHANGED <<envs, log, out, exc, mx>>
      ELSE /\ ctl' = SubSeq(ctl, 1, Len(ctl) - 1)
-          /\ envs' = [envs EXCEPT ![Top] = LayerAfterUnwind(F)]
-          /\ UNCHANGED <<log, out, exc, res>>
+          /\ IF F.kind \in {"macro", "fill", "tmpl"}
+             THEN \* the function returns abnormally: its copy of the scope is gone;
+                  \* every macro function records its call site (C12)
+                  /\ envs' = SubSeq(envs, 1, Top - 1)
+                  /\ mx' = [mx EXCEPT !.senv = SubSeq(mx.senv, 1, Len(mx.senv) - 1)]
+                  /\ exc' = IF F.kind = "fill" THEN exc
+                            ELSE [exc EXCEPT !.sites = Append(exc.sites, Site(ctl[Len(ctl) - 1].i, "use", 0))]
+             ELSE /\ envs' = [envs EXCEPT ![Top] = LayerAfterUnwind(F)]
+                  /\ UNCHANGED <<mx, exc>>
+          /\ UNCHANGED <<log, out, res>>
   /\ UNCHANGED <<pid, glob, rep, cells, tok>>
 
 \* the fallback start tag carries the static attributes that no dynamic
@@ -738,7 +758,141 @@ SFb ==      \* fallback: start tag with static attributes, value, end tag
                            \o post
                   /\ ctl' = Goto("done")
                   /\ UNCHANGED exc
-  /\ UNCHANGED <<pid, envs, glob, rep, cells, res>>
+  /\ UNCHANGED <<pid, mx, envs, glob, rep, cells, res>>
+
+-----------------------------------------------------------------------------
+(* METAL.  A macro is the defining element rendered by a function of its    *)
+(* own: called with a COPY of the caller's scope (locals of the macro do not *)
+(* escape) after which the caller's scope is updated with the globals.       *)
+(* Slot fillers are closures stored in deques that live in the variable      *)
+(* scope (visit_UseExternalMacro); a macro function pops one filler per slot *)
+(* name it defines when it starts (visit_Macro).                             *)
+
+STop == Len(mx.senv)
+SLookup(s) == IF mx.senv[STop][s] # 0 THEN mx.senv[STop][s] ELSE mx.senv[1][s]
+MacroDef(name) == CHOOSE i \in 1..Len(items) : items[i].k = "open" /\ items[i].dm = name
+
+\* register the fillers of a use-macro element (in document order)
+RECURSIVE AddFills(_, _, _, _)
+AddFills(H, SE, fills, n) ==      \* H: heap, SE: senv; returns [h, se]
+  IF n > Len(fills) THEN [h |-> H, se |-> SE]
+  ELSE LET f == fills[n]
+           rec == [i |-> f.i, fn |-> F.fn, i18n |-> mx.i18n]
+           cur == IF SE[Len(SE)][f.s] # 0 THEN SE[Len(SE)][f.s] ELSE SE[1][f.s]
+       IN IF It.um.ext /\ cur # 0
+          THEN AddFills([H EXCEPT ![cur] = <<rec>> \o H[cur]], SE, fills, n + 1)       \* appendleft
+          ELSE AddFills(Append(H, <<rec>>), [SE EXCEPT ![Len(SE)][f.s] = Len(H) + 1], fills, n + 1)
+
+\* a macro function starts by popping one filler per slot name it defines
+\* (from the right end of the deque bound in its copy of the scope)
+RECURSIVE PopSlots(_, _, _, _)
+PopSlots(H, SE, todo, sv) ==
+  IF todo = {} THEN [h |-> H, sv |-> sv]
+  ELSE LET s == CHOOSE s \in todo : TRUE
+           id == IF SE[Len(SE)][s] # 0 THEN SE[Len(SE)][s] ELSE SE[1][s]
+       IN IF id # 0 /\ Len(H[id]) > 0
+          THEN PopSlots([H EXCEPT ![id] = SubSeq(H[id], 1, Len(H[id]) - 1)], SE, todo \ {s},
+                        [sv EXCEPT ![s] = H[id][Len(H[id])]])
+          ELSE PopSlots(H, SE, todo \ {s}, sv)
+
+NoSv == [s \in prog.slots |-> NoFill]
+
+\* call macro element E (or a whole template) from the current frame
+CallMacro(E, H, SE, whole, lib) ==
+  LET SE2 == Append(SE, SE[Len(SE)])                 \* econtext.copy()
+      todo == IF whole THEN prog.tslots[lib] ELSE items[E].mslots
+      p == PopSlots(H, SE2, todo, NoSv)
+      a == Len(mx.acts) + 1
+      fr == IF whole
+            THEN [Frame(0, "kids") EXCEPT !.kind = "tmpl", !.fn = a, !.c = prog.libs[lib].from, !.ke = prog.libs[lib].to + 1]
+            ELSE [Frame(E, NextStage(items[E], "imacro")) EXCEPT !.kind = "macro", !.fn = a]
+  IN /\ ctl' = Append(ctl, fr)
+     /\ mx' = [mx EXCEPT !.heap = p.h, !.senv = SE2, !.acts = Append(mx.acts, [sv |-> p.sv, tok |-> NoSite])]
+
+SIMacro ==  \* visit_UseInternalMacro: the define-macro element in the normal flow
+  /\ Running /\ F.st = "imacro" /\ F.kind # "macro"
+  /\ CallMacro(F.i, mx.heap, mx.senv, FALSE, 0)
+  /\ envs' = Append(envs, envs[Top])
+  /\ UNCHANGED <<pid, glob, rep, cells, out, log, tok, exc, res>>
+
+CMacroName(i) == <<"macroname", i, 0>>
+
+\* Language (C09): a filler belongs to its use-macro: it is offered to the macro
+\* that use names (and, through extend-macro, to the macros that one extends) and
+\* to nobody else, and it is gone when the use is finished.  The code keeps the
+\* deques in the dynamically scoped variable environment, so a filler for a slot
+\* the used macro lacks reaches macros used *inside* it, and outlives the use in
+\* the caller's scope (deviation FillerOutlivesUse).
+CSenv(i) == <<"senv", i, 0>>
+RECURSIVE BlockAll(_, _, _)
+BlockAll(H, SE, todo) ==   \* bind every slot name to a fresh empty deque of its own
+  IF todo = {} THEN [h |-> H, se |-> SE]
+  ELSE LET s == CHOOSE s \in todo : TRUE IN
+       BlockAll(Append(H, <<>>), [SE EXCEPT ![Len(SE)][s] = Len(H) + 1], todo \ {s})
+Blocked(H, SE) ==      \* a scope layer in which no inherited filler is visible
+  IF "FillerOutlivesUse" \in Dev \/ It.um.ext THEN [h |-> H, se |-> SE]
+  ELSE BlockAll(H, SE, prog.slots)
+
+SUse ==     \* visit_UseExternalMacro (+ the Define of `macroname` around it)
+  /\ Running /\ F.st = "use"
+  /\ LET u == It.um
+         b == Blocked(mx.heap, mx.senv)
+         r == AddFills(b.h, b.se, u.fills, 1)
+         E == IF u.whole THEN 0 ELSE MacroDef(u.mname)
+         \* `macroname`: the text after the last '/' of the use-macro expression
+         env1 == SetLocal(envs, "macroname", [t |-> "macroexpr", i |-> F.i])
+     IN /\ cells' = [x \in DOMAIN cells \cup {CMacroName(F.i), CSenv(F.i)} |->
+                          IF x = CMacroName(F.i) THEN Lookup("macroname")
+                          ELSE IF x = CSenv(F.i) THEN [t |-> "senv", l |-> mx.senv[STop]] ELSE cells[x]]
+        /\ tok' = Site(F.i, "use", 0)
+        /\ CallMacro(E, r.h, r.se, u.whole, u.lib)
+        /\ envs' = Append(env1, env1[Len(env1)])
+  /\ UNCHANGED <<pid, glob, rep, out, log, exc, res>>
+
+\* econtext.update(rcontext) after a macro call
+WithGlobals(layer) == [n \in Names |-> IF glob[n] # Undef THEN glob[n] ELSE layer[n]]
+
+MReturn ==  \* the macro function returns
+  /\ Running /\ F.kind \in {"macro", "tmpl"}
+  /\ IF F.kind = "macro" THEN F.st = "done" ELSE (F.st = "kids" /\ F.c = KidsEnd)
+  /\ LET n == Len(ctl)
+         caller == ctl[n - 1]
+         lay == WithGlobals(envs[Top - 1])
+     IN IF caller.st = "use"
+        THEN /\ envs' = [SubSeq(envs, 1, Top - 2) \o <<lay>> EXCEPT ![Top - 1]["macroname"] =
+                            Restored("macroname", cells[CMacroName(caller.i)])]
+             /\ ctl' = [SubSeq(ctl, 1, n - 1) EXCEPT ![n - 1].st = "loop", ![n - 1].j = 1]
+        ELSE /\ envs' = SubSeq(envs, 1, Top - 2) \o <<lay>>
+             /\ ctl' = [SubSeq(ctl, 1, n - 1) EXCEPT ![n - 1].st = "done", ![n - 1].j = 1]
+  /\ LET se == SubSeq(mx.senv, 1, Len(mx.senv) - 1)
+         caller == ctl[Len(ctl) - 1]
+     IN mx' = [mx EXCEPT !.senv = IF caller.st = "use" /\ "FillerOutlivesUse" \notin Dev /\ ~items[caller.i].um.ext
+                                  THEN [se EXCEPT ![Len(se)] = cells[CSenv(caller.i)].l] ELSE se]
+  /\ UNCHANGED <<pid, glob, rep, cells, out, log, tok, exc, res>>
+
+SDs ==      \* visit_DefineSlot: the slot's default content, or the filler
+  /\ Running /\ F.st = "ds"
+  /\ LET fl == mx.acts[F.fn].sv[It.ds] IN
+     IF fl = NoFill
+     THEN /\ ctl' = Goto(NextStage(It, "ds"))
+          /\ UNCHANGED <<envs, mx>>
+     ELSE \* SLOT(__stream, econtext.copy(), rcontext) -- with the i18n settings
+          \* of the place where the filler was written
+          /\ ctl' = Append(ctl, [Frame(fl.i, NextStage(items[fl.i], "imacro")) EXCEPT !.kind = "fill", !.fn = fl.fn,
+                                                                                     !.ke = 0])
+          /\ envs' = Append(envs, envs[Top])
+          /\ mx' = [mx EXCEPT !.senv = Append(mx.senv, mx.senv[STop]),
+                              !.tstk = Append(mx.tstk, mx.i18n), !.i18n = fl.i18n]
+  /\ UNCHANGED <<pid, glob, rep, cells, out, log, tok, exc, res>>
+
+FReturn ==  \* the filler returns: the define-slot element is done
+  /\ Running /\ F.kind = "fill" /\ F.st = "done"
+  /\ LET n == Len(ctl) IN
+     ctl' = [SubSeq(ctl, 1, n - 1) EXCEPT ![n - 1].st = "done", ![n - 1].j = 1]
+  /\ envs' = SubSeq(envs, 1, Top - 1)
+  /\ mx' = [mx EXCEPT !.senv = SubSeq(mx.senv, 1, Len(mx.senv) - 1),
+                      !.i18n = mx.tstk[Len(mx.tstk)], !.tstk = SubSeq(mx.tstk, 1, Len(mx.tstk) - 1)]
+  /\ UNCHANGED <<pid, glob, rep, cells, out, log, tok, exc, res>>
 
 -----------------------------------------------------------------------------
 Next ==
@@ -746,6 +900,7 @@ Next ==
   \/ SOe \/ SDef \/ SCase \/ SCond \/ SRep \/ SIter \/ SSw \/ SRepl \/ SOmit
   \/ SStag \/ SDicts \/ SAttr \/ SStagEnd \/ SCont \/ SEtag \/ SLoop \/ SUndef \/ SDone
   \/ Unwind \/ SFb
+  \/ SIMacro \/ SUse \/ MReturn \/ SDs \/ FReturn
 
 Spec == Init /\ [][Next]_vars
 
